@@ -3,6 +3,7 @@ package main
 import (
 	"fmt"
 	"go/ast"
+	"go/token"
 	"go/types"
 	"sort"
 	"strings"
@@ -62,7 +63,14 @@ func (r *Run) condShapesRec(fd *FuncDecl, out map[string]int, seen map[*FuncDecl
 			case *ast.IfStmt:
 				add(x.Cond)
 			case *ast.ForStmt:
-				add(x.Cond)
+				// `for i := 0; i < n; i++` and `for i := range n` are the same loop
+				if be, ok := ast.Unparen(x.Cond).(*ast.BinaryExpr); ok && be.Op == token.LSS && identOf(be.X) != nil {
+					out["loop range "+u.shapeOf(be.Y)]++
+				} else {
+					add(x.Cond)
+				}
+			case *ast.RangeStmt:
+				out["loop range "+u.shapeOf(x.X)]++
 			case *ast.CaseClause:
 				for _, e := range x.List {
 					if t := u.Info.TypeOf(e); t != nil && isBoolType(t) {
